@@ -297,6 +297,7 @@ func (a *chanAnalyzer) checkJoins(r *Result, F, K *FuncNode, T types.Type, key s
 				continue
 			}
 			if !a.sendsOnType(S, T, 0, map[*FuncNode]bool{}) {
+				visit(S, depth+1) // it may spawn senders itself
 				continue
 			}
 			jk := fmt.Sprintf("%s / sender %s joined", key, S.Name)
@@ -306,12 +307,17 @@ func (a *chanAnalyzer) checkJoins(r *Result, F, K *FuncNode, T types.Type, key s
 				visit(S, depth+1)
 				continue
 			}
+			if why := a.addAccounted(G, W, sp); why != "" {
+				r.bad("H5", jk, p.pos(S.Lit), why)
+				visit(S, depth+1)
+				continue
+			}
 			// where is W waited on?
 			waiter := G
 			if G == F {
 				waiter = K // the creator returns immediately; the closer waits
 			}
-			if a.waitsOn(waiter, W, sp, waiter == K && G == F) {
+			if a.waitsOn(waiter, W, sp, waiter == K && G == F) || (waiter != K && topOf(G).paramIndex(W) >= 0 && a.waitsOn(K, W, sp, true)) {
 				r.ok("H5", jk, p.pos(S.Lit), "starts with defer "+W.Name()+".Done(); "+W.Name()+".Wait() is passed on every path of "+shortName(waiter.Name)+" before it returns / closes")
 			} else {
 				r.bad("H5", jk, p.pos(S.Lit), W.Name()+".Wait() is not on every path of "+shortName(waiter.Name)+" after the spawn: the stream can be closed while this goroutine still sends")
@@ -518,3 +524,61 @@ func guardedByNonNil(fn *FuncNode, stmt ast.Node, obj types.Object) bool {
 }
 
 var _ = strings.Join
+
+// addAccounted: a <wg>.Add call dominates the spawn in G; when wg is a parameter of the enclosing declared function the Add may
+// sit in its callers, dominating the call. Returns "" when accounted, else the reason.
+func (a *chanAnalyzer) addAccounted(G *FuncNode, W types.Object, sp spawn) string {
+	spRef := G.find(sp.node)
+	found := false
+	for fn := G; fn != nil && !found; fn = fn.Parent {
+		ref := spRef
+		if fn != G {
+			// position of the literal chain inside fn
+			inner := G
+			for inner.Parent != fn && inner.Parent != nil {
+				inner = inner.Parent
+			}
+			if inner.Lit != nil {
+				ref = fn.find(inner.Lit)
+			}
+		}
+		fn.inspectBody(func(n ast.Node) bool {
+			if c, ok := n.(*ast.CallExpr); ok {
+				if o, ok := wgCall(fn, c, "Add"); ok && sameWG(o, W) {
+					if fn.dominates(fn.find(c), ref) || enclosingLoop(fn, c.Pos()) != nil && enclosingLoop(fn, c.Pos()) == enclosingLoop(fn, ref.node().Pos()) && c.Pos() < ref.node().Pos() {
+						found = true
+					}
+				}
+			}
+			return true
+		})
+	}
+	if found {
+		return ""
+	}
+	top := topOf(G)
+	if top.paramIndex(W) >= 0 && top.Obj != nil {
+		ncall, nok := 0, 0
+		for _, caller := range a.p.sortedFuncs() {
+			if caller.Body == nil {
+				continue
+			}
+			for _, c := range caller.calls(func(f *types.Func) bool { return f == top.Obj }) {
+				ncall++
+				cref := caller.find(c)
+				caller.inspectBody(func(n ast.Node) bool {
+					if ac, ok := n.(*ast.CallExpr); ok {
+						if o, ok := wgCall(caller, ac, "Add"); ok && sameWG(o, W) && ac.Pos() < c.Pos() && caller.dominates(caller.find(ac), cref) {
+							nok++
+						}
+					}
+					return true
+				})
+			}
+		}
+		if ncall > 0 && nok >= ncall {
+			return ""
+		}
+	}
+	return "no " + W.Name() + ".Add dominates the spawn of this goroutine: Wait can return (and the stream be closed) while it still sends"
+}
